@@ -20,6 +20,13 @@ C21  The scheduler graph is exactly the pruned dependency closure of the seeds.
      (``ItemFactory._is_ignored``: pattern matching + parent scopes over the
      union of config.disable and the per-item list; ``_add_children``: ignore
      list with parent scopes).
+ R6  the matcher itself implements the documented rule: in
+     ``SchedulerConfig.match_item_keys`` a key is selected, with pattern matching
+     on, exactly when ``fnmatch.filter(item_names, key)`` is non-empty (a literal
+     hit may be added, nothing may be taken away), and without pattern matching
+     exactly when it is one of the item names -- truth table of the selection
+     predicate over its atomic conditions; keys and names are compared in lower
+     case.
 Not decided: closure equality; order dependence of set-based file enumeration
 (only matters when two files define the same name, which the property excludes).
 """
@@ -267,9 +274,89 @@ def run(ctx):
     kw = {k.arg: ast.unparse(k.value) for k in ign_call[0].keywords} if ign_call else {}
     (ctx.judge('R5', '_add_children ignore matching', facts=kw) if kw.get('match_item_parents') == 'True' else
      ctx.violation('R5', '_add_children:ignore-flags', ac.where, 'ignore matching does not extend to parent scopes'))
+    run_r6(ctx)
+
+
+def run_r6(ctx):
+    import itertools
+    from sa import boolfun as BF
+    m = ctx.model
+    ctx.rule('R6', 'match_item_keys: selection predicate == fnmatch.filter(item_names, key) (pattern mode) / key in item_names (plain mode), '
+                   'evaluated over all assignments of its atoms')
+    C = m.get_class('loki/batch/configure.py', 'SchedulerConfig')
+    f = C.function('match_item_keys')
+    if f is None:
+        raise AnalysisError('SchedulerConfig.match_item_keys vanished')
+    rets = [(r, g) for r, g in X.nodes_with_guards(f.node, lambda n: isinstance(n, ast.Return) and n.value is not None, early=True)]
+    gens = []
+    for r, g in rets:
+        ge = next((x for x in ast.walk(r.value) if isinstance(x, (ast.GeneratorExp, ast.ListComp)) and len(x.generators) == 1), None)
+        if ge is None:
+            raise AnalysisError(f'match_item_keys: `{ast.unparse(r)[:60]}` is not a filter comprehension over the keys')
+        mode = 'pattern' if any(g_ == 'use_pattern_matching' for g_ in g) else ('plain' if any(g_ == 'not (use_pattern_matching)' for g_ in g) else None)
+        if mode is None:
+            raise AnalysisError(f'match_item_keys: return under guards {g} cannot be assigned to a matching mode')
+        gens.append((mode, r, ge))
+    if {md for md, _, _ in gens} != {'pattern', 'plain'}:
+        raise AnalysisError('match_item_keys: expected one return per matching mode')
+    for mode, r, ge in gens:
+        kv = ge.generators[0].target.id
+        names = next((ast.unparse(c.args[0]) for c in ast.walk(ge) if isinstance(c, ast.Call) and (X.dotted_attr(c.func) or '').endswith('fnmatch.filter')), None) \
+            or next((ast.unparse(c.comparators[0]) for c in ast.walk(ge) if isinstance(c, ast.Compare) and isinstance(c.ops[0], ast.In)
+                     and ast.unparse(c.left) == kv), 'item_names')
+        A, B = f'{kv} in {names}', f'fnmatch.filter({names}, {kv})'
+        test = ast.BoolOp(op=ast.And(), values=list(ge.generators[0].ifs)) if len(ge.generators[0].ifs) != 1 else ge.generators[0].ifs[0]
+        if not ge.generators[0].ifs:
+            ctx.violation('R6', f'match_item_keys:{mode}:no-filter', f'{f.module.relpath}:{r.lineno}', 'every key is returned as a match')
+            continue
+        atoms = BF.leaves(test)
+        rows, bad = 0, None
+        for vals in itertools.product((False, True), repeat=len(atoms)):
+            env = dict(zip(atoms, vals))
+            a, b = env.get(A, False), env.get(B, False)
+            got = bool(BF.ev(test, env))
+            rows += 1
+            if mode == 'pattern':
+                if B not in env:
+                    bad = f'the predicate `{ast.unparse(test)}` never consults `{B}`'
+                    break
+                if b and not got:
+                    bad = f'with {env} the key matches a name as a pattern but is not selected'
+                    break
+                if not b and not a and got:
+                    bad = f'with {env} the key is selected although it matches no name'
+                    break
+            else:
+                if A not in env:
+                    bad = f'the predicate `{ast.unparse(test)}` never consults `{A}`'
+                    break
+                if got != a:
+                    bad = f'with {env} the selection differs from `{A}`'
+                    break
+        inst = f'match_item_keys:{mode}'
+        if bad:
+            ctx.violation('R6', f'SchedulerConfig.match_item_keys:{mode}-selection', f'{f.module.relpath}:{r.lineno}',
+                          f'{bad}: disable / block / ignore entries written with the documented fnmatch syntax '
+                          f'(`?`, `[seq]`, `*`) do not prune the items they name')
+        else:
+            ctx.judge('R6', inst, facts={'atoms': atoms, 'rows': rows})
+    # keys folded to lower case before matching
+    kparam = [a.arg for a in f.node.args.args]
+    folded = [a for a in ast.walk(f.node) if isinstance(a, ast.Assign) and '.lower()' in ast.unparse(a.value) and 'keys' in ast.unparse(a.value)]
+    (ctx.judge('R6', 'keys are lower-cased before matching') if folded else
+     ctx.violation('R6', 'SchedulerConfig.match_item_keys:keys-not-folded', f.where, 'keys are no longer lower-cased before they are compared with the (lower-case) item names'))
 
 
 MUTANTS = [
+    Mutant('pattern-only-with-star', 'loki/batch/configure.py', "            return tuple(key for key in keys if fnmatch.filter(item_names, key))",
+           "            return tuple(key for key in keys if key in item_names or ('*' in key and fnmatch.filter(item_names, key)))",
+           expect=('R6', 'pattern-selection')),
+    Mutant('neutral-literal-or-pattern', 'loki/batch/configure.py', "            return tuple(key for key in keys if fnmatch.filter(item_names, key))",
+           "            return tuple(key for key in keys if key in item_names or fnmatch.filter(item_names, key))",
+           expect=None),
+    Mutant('plain-mode-always', 'loki/batch/configure.py', "        return tuple(key for key in keys if key in item_names)\n\n    def create_item_config",
+           "        return tuple(key for key in keys if key in item_names or not item_names)\n\n    def create_item_config",
+           expect=('R6', 'plain-selection')),
     Mutant('expand-guard-dropped', SG,
            "            if item.expand:\n                children = self._add_children(item, item_factory, config)\n                if children:\n                    queue.extend(children)",
            "            children = self._add_children(item, item_factory, config)\n            if children:\n                queue.extend(children)",
